@@ -25,7 +25,9 @@ EXTENDS Integers, Sequences, FiniteSets, TLC
 
 CONSTANTS Weights, VKWeights, Shapes, Biases, Kinds, BlockDepths, SliceLists, Dilations, Bits, Flips, Accs,
           MaxLen,            \* bound on the number of requests in a history
-          ClearOnCompile,    \* TRUE models a cache that is emptied at every compilation start (the repair)
+          ClearOnCompile,    \* TRUE: cache and value-id memo are emptied at every compilation start
+                             \* (compiler_driver.reset_process_wide_state)
+          ExtendedKey,       \* TRUE: the key also carries weight shape, IFM bit depth and kernel flip
           Assume             \* TRUE: histories are restricted by the environment assumption below
 
 VARIABLES cache,   \* Key -> [wb, scc, by]   by = the request that filled the entry (history variable)
@@ -39,10 +41,13 @@ Requests == [w : Weights, shape : Shapes, bias : Biases, kind : Kinds, blk : Blo
 
 (* value id seen by the cache: a tensor object's id identifies values and shape within one compilation;
    an id derived from the flattened values survives compilation boundaries and ignores the shape *)
-Vid(w, shape, ep) == IF w \in VKWeights THEN <<w, "flat", 0>> ELSE <<w, shape, ep>>
+Vid(w, shape, ep) == IF w \in VKWeights THEN <<w, "flat", IF ClearOnCompile THEN ep ELSE 0>> ELSE <<w, shape, ep>>
 
-Key(r, ep) == <<r.kind, r.blk, r.sl, r.dil, Vid(r.w, r.shape, ep)>>         \* Vela's projection
-OmittedFields == {"bits", "flip", "acc", "shape"}
+(* Vela's projection.  The original key is <<kind, blk, sl, dil, value id>>; the extended key (ExtendedKey)
+   adds weight_shape, ifm_bitdepth and flip_kernel.  The accelerator is in neither. *)
+Key(r, ep) == IF ExtendedKey THEN <<r.kind, r.blk, r.sl, r.dil, Vid(r.w, r.shape, ep), r.shape, r.bits, r.flip>>
+              ELSE <<r.kind, r.blk, r.sl, r.dil, Vid(r.w, r.shape, ep)>>
+OmittedFields == {"bits", "flip", "acc", "shape"}          \* omitted by the original key
 Omitted(r, a) == [bits |-> r.bits, flip |-> r.flip, acc |-> a, shape |-> r.shape]
 FreshW(r, a, ep) == <<Key(r, ep), Omitted(r, a)>>                           \* abstract weight bytes
 (* scale compression config: value id of the bias tensor (one per IFM type: int32 / int64 biases; a new object in
